@@ -29,6 +29,9 @@ type c05Call struct {
 	FE string `json:"fe,omitempty"`
 	L  int    `json:"l,omitempty"`
 	Fs []fldJ `json:"fs,omitempty"`
+	// Flip (Logger.Check only, exec only): every AtomicLevel is raised above Fatal AFTER Check returned and restored after
+	// the Write — Core.Write "should always log the Entry and Fields; it should not replicate the logic of Check"
+	Flip bool `json:"flip,omitempty"`
 }
 
 type c05Op struct {
@@ -210,7 +213,7 @@ func (g *treeGen) logCalls(fes []feSpec, levels []int, viaRandomFE int) []c05Cal
 		if fe.fields {
 			fs = g.keys(2)
 		}
-		calls = append(calls, c05Call{C: "log", FE: fe.key(), L: l, Fs: fs})
+		calls = append(calls, c05Call{C: "log", FE: fe.key(), L: l, Fs: fs, Flip: fe.key() == "Logger.Check" && len(calls)%2 == 0})
 	}
 	return calls
 }
@@ -519,7 +522,24 @@ func c05Exec(raw json.RawMessage) Result {
 				l = fe.level
 			}
 			en := lg.Core().Enabled(zapcore.Level(l))
-			fe.call(lg, zapcore.Level(l), "m", w.fields(call.Fs))
+			if call.Flip && call.FE == "Logger.Check" {
+				saved := make([]zapcore.Level, len(w.atomics))
+				betweenCheckAndWrite = func() {
+					for i, a := range w.atomics {
+						saved[i] = a.Level()
+						a.SetLevel(zapcore.FatalLevel + 1)
+					}
+				}
+				fe.call(lg, zapcore.Level(l), "m", w.fields(call.Fs))
+				if saved != nil && betweenCheckAndWriteRan(saved, w.atomics) {
+					for i, a := range w.atomics {
+						a.SetLevel(saved[i])
+					}
+				}
+				betweenCheckAndWrite = nil
+			} else {
+				fe.call(lg, zapcore.Level(l), "m", w.fields(call.Fs))
+			}
 			seq := w.rec.take()
 			obs := w.drainObs()
 			results = append(results, map[string]any{"c": "log", "en": en, "seq": seq, "obs": obs})
@@ -641,4 +661,17 @@ func c05Exec(raw json.RawMessage) Result {
 		Nontrivial: depth >= 2 && delivered > 0 && undelivered > 0,
 		Shape:      fmt.Sprintf("d%d/%s", bucket(depth), kindsString(kinds)),
 	}
+}
+
+// betweenCheckAndWriteRan: the hook ran iff every atomic now sits above Fatal (Check returned an entry).
+func betweenCheckAndWriteRan(saved []zapcore.Level, atomics []zap.AtomicLevel) bool {
+	if len(atomics) == 0 {
+		return false
+	}
+	for _, a := range atomics {
+		if a.Level() != zapcore.FatalLevel+1 {
+			return false
+		}
+	}
+	return true
 }
